@@ -34,8 +34,9 @@ type death struct {
 }
 
 type jobResult struct {
-	Out   json.RawMessage
-	Death *death
+	Out      json.RawMessage
+	Death    *death
+	Progress string // last progress line ("P ...") the worker wrote before the answer or its death
 }
 
 type pworker struct {
@@ -62,6 +63,8 @@ func (t *tailBuf) Write(p []byte) (int, error) {
 	t.mu.Unlock()
 	return len(p), nil
 }
+
+func (t *tailBuf) Reset() { t.mu.Lock(); t.b = t.b[:0]; t.mu.Unlock() }
 
 func (t *tailBuf) String() string { t.mu.Lock(); defer t.mu.Unlock(); return string(t.b) }
 
@@ -104,6 +107,7 @@ func (w *pworker) stop() {
 // do sends one job and waits for its answer line. jobWatchdog bounds a job
 // that neither answers nor dies (a hung worker is killed and reported).
 func (w *pworker) do(job []byte, jobWatchdog time.Duration) jobResult {
+	w.errBuf.Reset() // keep only what the worker writes during this job: a panic trace then starts at the top
 	if _, err := w.in.Write(append(job, '\n')); err != nil {
 		return w.dead(err)
 	}
@@ -112,16 +116,30 @@ func (w *pworker) do(job []byte, jobWatchdog time.Duration) jobResult {
 		err  error
 	}
 	ch := make(chan rd, 1)
+	progress := ""
+	var pmu sync.Mutex
 	go func() {
-		l, err := w.out.ReadBytes('\n')
-		ch <- rd{l, err}
+		for {
+			l, err := w.out.ReadBytes('\n')
+			if err == nil && len(l) > 1 && l[0] == 'P' && l[1] == ' ' {
+				pmu.Lock()
+				progress = strings.TrimSpace(string(l[2:]))
+				pmu.Unlock()
+				continue
+			}
+			ch <- rd{l, err}
+			return
+		}
 	}()
+	getP := func() string { pmu.Lock(); defer pmu.Unlock(); return progress }
 	select {
 	case r := <-ch:
 		if r.err != nil {
-			return w.dead(r.err)
+			d := w.dead(r.err)
+			d.Progress = getP()
+			return d
 		}
-		return jobResult{Out: r.line}
+		return jobResult{Out: r.line, Progress: getP()}
 	case <-time.After(jobWatchdog):
 		// SIGQUIT makes the Go runtime dump every goroutine before exiting: the hang's evidence
 		w.cmd.Process.Signal(syscall.SIGQUIT)
@@ -133,6 +151,7 @@ func (w *pworker) do(job []byte, jobWatchdog time.Duration) jobResult {
 		}
 		d := w.dead(fmt.Errorf("no answer within %v (worker killed)", jobWatchdog))
 		d.Death.Headline = "hang: " + d.Death.ExitErr
+		d.Progress = getP()
 		return d
 	}
 }
@@ -262,6 +281,11 @@ func hostLoop(handle func(job []byte) any) {
 			return
 		}
 	}
+}
+
+// hostProgress tells the parent how far the current job got (survives the worker's death).
+func hostProgress(s string) {
+	os.Stdout.WriteString("P " + s + "\n")
 }
 
 func hostMain() {
